@@ -85,10 +85,17 @@ class Cfg:
         return k * self.Tol if k % 2 == 0 else (k + 1) * self.Tol
 
 
+_GRID_ONE_TOLS = (1.0, 2.0, 5.0, 0.5, 1.0, 3.0)
+
+
 def make_real(cfg, size=(), levy="none", entropy=1234, W=None, H=None, dtype=torch.float64, scale_warmup=True):
     """Construct the real object the model instance describes."""
+    # The library resolves times to the grid 10**-ndigits, ndigits = -int(log10(tol)): every tol in (0.1, 10) means
+    # the grid of whole ticks the model calls Tol.  The value handed over rotates among such tolerances (not only the
+    # power of ten): nothing but the grid may matter.
+    tol = _GRID_ONE_TOLS[(int(entropy) + cfg.N + int(cfg.off)) % len(_GRID_ONE_TOLS)] if cfg.Tol else 0.0
     kw = dict(t0=cfg.t(0), t1=cfg.t(cfg.T), size=size if (W is None and H is None) else None, dtype=dtype,
-              entropy=entropy, tol=1.0 if cfg.Tol else 0.0,
+              entropy=entropy, tol=tol,
               cache_size=None if cfg.CacheSize < 0 else cfg.CacheSize,
               halfway_tree=bool(cfg.Halfway), levy_area_approximation=levy)
     if cfg.DtHint:
